@@ -73,6 +73,13 @@ func filtersFor(mode string) []filter {
 	return fs
 }
 
+// scenFilters is the filter list of the interleaving scenarios: the sequential alphabet plus a share group in
+// the second contract, so that two lookups can each meet exactly one share group (one group per share node keeps
+// the execution independent of Go's map iteration order).
+func scenFilters(mode string) []filter {
+	return append(filtersFor(mode), mkFilter(2, "$share/g1/a/"))
+}
+
 type probe struct {
 	Contract uint32
 	Text     string
@@ -447,8 +454,8 @@ func pidx(contract uint32, text string) int {
 }
 
 func scens() []scen {
-	e := filtersFor("")
-	m := filtersFor("mqtt")
+	e := scenFilters("")
+	m := scenFilters("mqtt")
 	return []scen{
 		{Name: "prune-vs-walk", Mode: "", Threads: [][]cop{
 			{{Kind: "sub", F: fidx(e, 1, "a/b/"), S: 0}, {Kind: "unsub", F: fidx(e, 1, "a/b/"), S: 0}},
@@ -474,6 +481,13 @@ func scens() []scen {
 			{{Kind: "unsub", F: fidx(e, 1, "a/b/"), S: 1}},
 			{{Kind: "unsub", F: fidx(e, 1, "a/b/"), S: 0}, {Kind: "sub", F: fidx(e, 1, "a/b/"), S: 2}},
 			{{Kind: "lookup", P: pidx(1, "a/b/")}},
+		}},
+		// two publishes at the same time, each meeting a share group (of its own contract): lookups only hold the
+		// read lock, so whatever scratch state the share selection uses must not be shared between them
+		{Name: "concurrent-share-lookups", Mode: "", Pre: []cop{
+			{Kind: "sub", F: fidx(e, 1, "$share/g1/a/"), S: 0}, {Kind: "sub", F: fidx(e, 2, "$share/g1/a/"), S: 1}, {Kind: "sub", F: fidx(e, 1, "a/b/"), S: 2}}, Threads: [][]cop{
+			{{Kind: "lookup", P: pidx(2, "a/")}, {Kind: "lookup", P: pidx(1, "a/b/")}},
+			{{Kind: "lookup", P: pidx(1, "a/")}, {Kind: "lookup", P: pidx(2, "a/")}},
 		}},
 		{Name: "mqtt-multi-wildcard", Mode: "mqtt", Threads: [][]cop{
 			{{Kind: "sub", F: fidx(m, 1, "a/#/"), S: 0}, {Kind: "unsub", F: fidx(m, 1, "a/#/"), S: 0}},
@@ -503,7 +517,7 @@ func applyReal(t *message.Trie, fs []filter, o cop) []string {
 }
 
 func (sc scen) scenario() *sched.Scenario {
-	fs := filtersFor(sc.Mode)
+	fs := scenFilters(sc.Mode)
 	var last *sharedRun
 	return &sched.Scenario{
 		Name:  sc.Name,
@@ -689,6 +703,7 @@ func worker(c *core.Ctx, args []string) {
 	e := &sched.Explorer{Sc: sc.scenario(), Bound: bound, Shard: shard, NShards: n, Deadline: c.Deadline}
 	st := e.Explore()
 	c.Add("schedules", st.Executions)
+	c.Add("replay_divergences", st.Divergences)
 	c.Add("schedules:"+sc.Name, st.Executions)
 	for o := range st.Outcomes {
 		c.Distinct("outcomes:"+sc.Name, o)
